@@ -155,6 +155,59 @@ func (w *World) EvalQuiescent() {
 		}
 	}
 
+	// ---- C21: acks / clears only affect the message they name: an AckMsg(n) /
+	// ClearMsg(n) is sent to a peer only if its partner acked / cleared exactly n
+	// (and n is a message that peer submitted / was sent)
+	for _, c := range calls {
+		if c.Kind != "session" {
+			continue
+		}
+		for _, r := range c.Resp {
+			var kind string
+			switch {
+			case strings.HasPrefix(r, "AckMsg("):
+				kind = "Ack"
+			case strings.HasPrefix(r, "ClearMsg("):
+				kind = "Clear"
+			default:
+				continue
+			}
+			n := r[strings.Index(r, "(")+1 : len(r)-1]
+			found := false
+			for _, p := range calls {
+				if p.Kind != "session" || !(p.From == c.To && p.To == c.From) {
+					continue
+				}
+				for _, q := range p.Req {
+					if strings.HasPrefix(q, kind+"(") && strings.HasSuffix(q, ",n="+n+")") {
+						found = true
+					}
+				}
+			}
+			if !found {
+				w.verdict("V21:%s-forwarded-without-partner-request n=%s", strings.ToLower(kind), n)
+				continue
+			}
+			// the named message must be one this peer submitted (ack) / one submitted to it (clear)
+			ok := false
+			for _, sb := range w.Subs {
+				x := w.Call[sb.Call]
+				if strconv.FormatUint(sb.Seqno, 10) != n {
+					continue
+				}
+				if kind == "Ack" && x.From == c.From && x.To == c.To {
+					ok = true
+				}
+				if kind == "Clear" && x.From == c.To && x.To == c.From {
+					ok = true
+				}
+			}
+			if !ok {
+				w.verdict("V21:%s-names-a-message-that-was-never-sent n=%s", strings.ToLower(kind), n)
+			}
+		}
+	}
+
 	// ---- C20 (2): future epochs must end the submitting call with an error
 	finalEpoch := map[string]uint64{}
 	for _, st := range sessions {
